@@ -154,7 +154,7 @@ pub mod parser {
     }
 
     pub fn new_line<'a>() -> Parser<'a, char, ()> {
-        one_of("\r\n").discard()
+        (sym('\r') * sym('\n')).discard() | one_of("\r\n").discard()
     }
 
     /// any whitespace character
@@ -208,7 +208,7 @@ pub mod parser {
     /// a = {fill: red}
     /// b = {stroke: blue}
     fn css_style_list<'a>() -> Parser<'a, char, Vec<(String, String)>> {
-        list(class_and_style(), new_line())
+        list(class_and_style(), space() - new_line())
     }
 
     /// a = {fill: red}
